@@ -2882,14 +2882,12 @@ impl Node {
     pub fn forget_channel(&self, channel_id: &ChannelId) -> Result<(), Status> {
         let mut stub_found = false;
         let mut ready_forgotten = false;
-        // As per devrandom the lock order should be node_state -> channels -> channel
-        let mut node_state: MutexGuard<'_, NodeState> = self.get_state();
+        // Lock order: channels -> channel -> node_state.  Every channel request takes the
+        // node state while it holds its channel lock, so the node state must be the last
+        // of the three here as well (taking it first deadlocks against such a request).
         let mut channels = self.get_channels();
         let found = channels.get(channel_id);
         if let Some(slot) = found {
-            // Acquire a lock on the node state to potentially update the high water mark.
-            // This is the only place the high water mark could be updated so any changes
-            // to the node state since acquiring the channels lock are irrelevant.
             let channel = slot.lock().unwrap();
             match &*channel {
                 ChannelSlot::Stub(_) => {
@@ -2904,6 +2902,9 @@ impl Node {
                     ready_forgotten = true;
                 }
             };
+            // Acquire a lock on the node state to potentially update the high water mark.
+            // This is the only place the high water mark could be updated.
+            let mut node_state: MutexGuard<'_, NodeState> = self.get_state();
             if channel_id.oid() > node_state.dbid_high_water_mark {
                 node_state.dbid_high_water_mark = channel_id.oid();
                 self.persister
@@ -2920,7 +2921,6 @@ impl Node {
             });
         }
         drop(channels);
-        drop(node_state);
         if ready_forgotten {
             // The forget flag lives in the channel monitor, which is persisted as part of
             // the tracker.  Take the tracker lock only after the other locks were released.
